@@ -430,6 +430,12 @@ func layersOf(s *Spec) []Layer {
 		return []Layer{mk(s, "*fmt.wrapError", Full, S(0)+": "+causeText())}
 	case "goerrorfsuffix":
 		return []Layer{mk(s, "*fmt.wrapError", Full, causeText()+" - "+S(0))}
+	case "goerrorfecho":
+		return []Layer{mk(s, "*fmt.wrapError", Full, S(0)+": "+causeText()+": "+causeText())}
+	case "pkgmsgecho":
+		return []Layer{mk(s, "*errors.withMessage", Full, S(0)+": "+causeText()+": "+causeText())}
+	case "wrapecho":
+		return []Layer{stackL(s), mk(s, "*errutil.withPrefix", Prefix, S(0)+": "+causeText())}
 	case "ospath":
 		return []Layer{mk(s, "*fs.PathError", Prefix, S(0)+" "+S(1))}
 	case "oslink":
